@@ -47,6 +47,24 @@ theorem C04_nbytes (bw : Nat) (xs : List Nat) (h : bw = 2 ∨ bw = 4 ∨ bw % 8 
     (tobytes bw xs).length = nbytes xs.length bw :=
   IrVerif.TensorRepr.packLE_length bw xs h
 
+/-- **C04_pack_bitstream**: the canonical byte form IS the specified layout.  Read as one
+    little-endian bit stream (bit 0 of byte 0 first), the bytes `tobytes bw xs` consist of the
+    elements' `bw` low bits in element order, the FIRST element in the LOWEST bits, followed by
+    zero bits up to `8 * nbytes`; for the 4- and 2-bit packings and for every whole-byte width
+    (little-endian items), for all lengths.  `elemStream` / `natBits` do not mention `pack4`,
+    `pack2` or `leBytes`: swapping the nibble order in the packer (even consistently with the
+    unpacker) falsifies this theorem. -/
+theorem C04_pack_bitstream (bw : Nat) (xs : List Nat) (h : bw = 2 ∨ bw = 4 ∨ bw % 8 = 0) :
+    bitStream (tobytes bw xs) = elemStream bw xs (nbytes xs.length bw) :=
+  bitStream_tobytes bw xs h
+
+-- the specification is concrete: element 0 sits in the low bits
+example : bitStream (pack4 [1, 2, 3]) =
+    [true, false, false, false,  false, true, false, false,  true, true, false, false,  false, false, false, false] := by
+  decide
+example : bitStream (pack2 [1, 2]) = [true, false, false, true, false, false, false, false] := by decide
+example : bitStream (leBytes 2 0x0102) = natBits 16 0x0102 := by decide
+
 -- non-vacuity: odd lengths, out-of-range elements, non-zero padding bits
 example : unpack4 (pack4 [1, 2, 31]) 3 = [1, 2, 15] := by decide
 example : unpack2 (pack2 [0, 1, 2, 3, 5]) 5 = [0, 1, 2, 3, 1] := by decide
@@ -156,7 +174,8 @@ theorem C04_tables : Tables where
   classes := by intro d; cases d <;> decide
 
 /-- **C04_field_agree**: every legal representation of a logical tensor (element type `d` of `bw`
-    bits, shape `dims`, element bit patterns `xs`) — array-backed with any storage form, torch
+    bits, shape `dims`, element bit patterns `xs`) — array-backed with any storage form (also given as memory in either byte order behind an
+    array-compatible object), torch
     adapter (also over a contiguous view at any storage offset of a larger storage), packed, proto-backed through `raw_data`, `int32_data` (any congruent int32 values, at
     32/16/8 bits and packed at 4/2 bits), `int64_data`, `uint64_data` (also for UINT32),
     `float_data` / `double_data` (also as complex pairs), external at any offset inside any file,
@@ -206,13 +225,30 @@ theorem C04_tofile_at (f : Dest) (data : List Nat) :
         = f.img.drop ((if f.append then f.img.length else f.pos) + data.length)) :=
   ⟨fun h => by subst h; exact write_nil f, write_spec f data⟩
 
+/-- **C04_tofile_paths**: the three ways `tofile` delivers bytes to a destination perform the
+    same write.  `ndarray.tofile(file)` (write through a duplicated descriptor at `file.tell()`,
+    then seek the file object behind the data), the `copy_file_range` path of `ExternalTensor.tofile`
+    (any number of kernel rounds copying any amounts at `destination_offset + copied` without
+    moving the position, `file.seek(destination_offset + copied)`, then the rest through the chunk
+    loop; nothing kernel-copied in append mode) and a chunk loop with any chunk size all leave
+    exactly the image and the position of a single `file.write(data)` — at any position, past the
+    end of the file, and in append mode. -/
+theorem C04_tofile_paths (f : Dest) (data : List Nat) :
+    f.ndTofile data = f.write data ∧
+    (∀ rounds : List Nat, f.copyRange data rounds = f.write data) ∧
+    (∀ size : Nat, 0 < size → f.writeAll (chunk size data) = f.write data) ∧
+    (∀ a b : List Nat, (f.write a).write b = f.write (a ++ b)) :=
+  ⟨ndTofile_eq_write f data, copyRange_eq_write f data,
+   fun size h => by rw [writeAll_eq, chunk_flatten size h], write_write f⟩
+
 /-- **C04_tofile_repr**: `tofile` of any legal representation into any destination (regular
-    file or buffer, any position, append mode) performs exactly the write of the canonical bytes
-    and does not raise. -/
+    file or buffer, any position, append mode), through whichever mechanism the representation
+    uses for that kind of destination, performs exactly the write of the canonical bytes and does
+    not raise. -/
 theorem C04_tofile_repr {d : DType} {dims : List Nat} {bw : Nat} {xs : List Nat}
     (wf : WF d dims bw xs) {r : Rep} (h : Legal d dims bw xs r) (f : Dest) :
     r.tofileAt f = .ok (f.write (packLE bw xs), false) := by
-  simp [Rep.tofileAt, (legal_agrees wf h).tofile]
+  simp [Rep.tofileAt, (legal_agrees wf h).tofile, deliver_eq_write]
 
 /-- **C04_serialize_roundtrip**: serializing any legal representation and deserializing the
     proto (with the same data file for an external tensor) yields a legal representation of the
@@ -250,10 +286,22 @@ example : Legal .uint2 [5] 2 [0, 1, 2, 3, 1] (.torch .uint2 [5] [0, 1, 2, 3, 1])
 -- a torch view at storage offset 2 of a 7-element storage
 example : Legal .uint8 [3] 8 [5, 6, 7] (.torch .uint8 [3] (torchView ([1, 2] ++ [5, 6, 7] ++ [9, 9]) 2 3)) :=
   Legal.torchView [1, 2] [5, 6, 7] [9, 9] (by decide) (by decide) (by decide)
--- an array with an explicit non-native byte order never yields bytes in memory (big-endian) order:
--- the constructor rejects it (the only other answer the check accepts is the little-endian bytes)
-example : (Rep.arrayBE .float [1] [0x3F800000]).tobytes = .error "TypeError" := rfl
+-- big-endian memory: a real ndarray is rejected, any other array-compatible holder is legal and is
+-- serialised little-endian (never in memory order)
+example : Legal .float [1] 32 [0x3F800000] (.arrayMem .float [1] (memOf (32 / 8) true [0x3F800000]) true false) :=
+  Legal.arrayMem true false rfl (by decide) (by decide)
+example : memOf 4 true [0x3F800000] = [0x3F, 0x80, 0x00, 0x00] := by decide
+example : (Rep.arrayMem .float [1] (memOf (32 / 8) true [0x3F800000]) true false).tobytes
+    = .ok (packLE 32 [0x3F800000]) :=
+  (C04_field_agree ⟨by decide, by decide, by decide⟩ (Legal.arrayMem true false rfl (by decide) (by decide))).tobytes
+example : packLE 32 [0x3F800000] = [0x00, 0x00, 0x80, 0x3F] := by decide
+example : (Rep.arrayMem .float [1] [0x3F, 0x80, 0x00, 0x00] true true).tobytes = .error "TypeError" := rfl
 example : (Rep.array .float [1] [0x3F800000]).tobytes = .ok [0x00, 0x00, 0x80, 0x3F] := rfl
+-- the kernel-copy path with a short first round, in the middle of a file
+example : (copyRounds { img := [1, 2, 3, 4, 5, 6], pos := 2, regular := true } 2 [7, 8, 9] [2, 0] 0).1.img
+    = [1, 2, 7, 8, 5, 6] := by decide
+example : (copyRounds { img := [1, 2, 3, 4, 5, 6], pos := 2, regular := true } 2 [7, 8, 9] [2, 0] 0).2 = 2 := by
+  decide
 -- and the conclusions are not trivially true: the model answers concrete bytes
 example : (Rep.proto { dataType := 22, dims := [3], int32Data := [127, -248] }).numpy = .ok [15, 7, 8] := rfl
 example : (Rep.external { dtype := .uint2, dims := [5], offset := some 1, length := none } (some [7, 0xE4, 0x01])).numpy
